@@ -378,6 +378,22 @@ func c17(c *Ctx) {
 		c.Check(nEdges == 1 && good, "R4", "sdk/log|dedup|duplicate key ⇒ dropped++", at(ix.M, fn.Pos()), "each replaced duplicate is counted", "duplicates removed by dedup are not counted")
 	}
 
+	// R6 index-map pairing
+	c.Rule("R6", "E3 pairing", "de-duplication index maps record len(slice) − 1 right after the append they index (dedup, AddAttributes)", 2)
+	for _, nm := range []string{"dedup", "(*Record).AddAttributes"} {
+		fn := c.Fn(ix, "R6", nm)
+		if fn == nil {
+			continue
+		}
+		n, bad, pos := indexPairing(info, fn)
+		site := at(ix.M, fn.Pos())
+		if bad != "" {
+			site = at(ix.M, pos)
+		}
+		c.Check(n >= 1 && bad == "", "R6", "sdk/log|"+nm+"|index map ← len(slice) − 1 after append", site, itoa(n)+" index store(s) paired with their append",
+			"a later duplicate of that key overwrites another attribute (or indexes out of range): "+bad)
+	}
+
 	// R5 kinds covered
 	c.Rule("R5", "E2 exhaustiveness", "applyValueLimits handles every log.Kind that can contain strings: String ↦ truncate(limit), Slice ↦ recursion, Map ↦ dedup + applyAttrLimits; other kinds unchanged", 3)
 	if fn := c.Fn(ix, "R5", "(*Record).applyValueLimits"); fn != nil {
